@@ -137,6 +137,8 @@ CORPUS = [
     [("reg", 0, "/a/f"), ("reg", 1, "/b/g"), ("rel", 0, 1), ("inv", 1, "/b/g"), ("reg", 1, "/b/g"), ("rel", 0, 2)],
     # DESIGN §6 #21: unbounded recursion
     [("reg", 0, "/e/f"), ("reg", 0, "/e"), ("rel", 0, 1), ("inv", 0, "/e")],
+    # a subtree skipped by the invalidation walk
+    [("reg", 1, "/b/e/a"), ("reg", 0, "/b"), ("reg", 1, "/b/e/a/f"), ("rel", 1, 0), ("inv", 1, "/")],
     [("reg", 0, "/a/b/c"), ("inv", 0, "/a"), ("reg", 0, "/a/b/c"), ("reg", 1, "/a/b"), ("inv", 0, "/a/b/c"), ("inv", 1, "/")],
     [("reg", 0, "/a"), ("reg", 0, "/a"), ("inv", 0, "/a"), ("inv", 0, "/a"), ("reg", 0, "/a"), ("inv", 0, "/zz")],
     [("reg", 0, "/a/f"), ("reg", 0, "/b/g"), ("rel", 0, 1), ("inv", 0, "/a"), ("reg", 0, "/a/f")],
@@ -171,6 +173,14 @@ class C21(Property):
                   "correspondence check")
     assumptions = ["paths are normalised absolute POSIX paths; one location name per deployment"]
     min_nontrivial = 30
+
+    def _fail(self, ctx: Ctx, key, detail, replay):
+        """known findings are reported a few times per key, so that the failure list keeps room for other kinds"""
+        self._per_key[key] = self._per_key.get(key, 0) + 1
+        if self._per_key[key] <= 5:
+            ctx.fail(key, detail, replay)
+        else:
+            ctx.count("more:" + key)
 
     def _run(self, ctx: Ctx, ops, nloc, lines, expect, meta, bucket):
         dm = DefaultDataManager(_Context())
@@ -220,7 +230,7 @@ class C21(Property):
             meta.append((ops, i, op[0]))
             ctx.count("op:" + op[0] + ("" if res == "ok" else ":" + res))
             if res == "RecursionError":
-                ctx.fail("registry:invalidate-recursion", f"invalidate_location({op[1]}, {op[2]!r}) raises RecursionError after {ops[:i]}",
+                self._fail(ctx, "registry:invalidate-recursion", f"invalidate_location({op[1]}, {op[2]!r}) raises RecursionError after {ops[:i]}",
                          {"ops": ops[: i + 1], "nloc": nloc})
                 break
             if res != rres:
@@ -253,15 +263,20 @@ class C21(Property):
                 walk(dm.path_mapper._filesystem, [])
                 missing = [x for x in want if x not in real]
                 extra = [x for x in real if x not in want]
-                key = ("registry:stale-valid-paths-hide-new-location" if missing and not extra and stale
+                beneath = op[0] == "inv" and op[1] == l and (op[2] == "/" or q == op[2] or q.startswith(op[2].rstrip("/") + "/"))
+                key = ("registry:stale-valid-paths-hide-new-location" if missing and not extra and stale and any(
+                           o[0] == "rel" for o in ops[: i + 1])
+                       else "registry:invalidate-skips-subtree" if extra and not missing and beneath and any(
+                           o[0] == "rel" for o in ops[: i + 1])
                        else "registry:differs-from-reference")
-                ctx.fail(key, f"after {ops[: i + 1]}: get_data_locations({q!r}, d{l}) = {real}, reference {want}; stale valid_paths {stale}",
+                self._fail(ctx, key, f"after {ops[: i + 1]}: get_data_locations({q!r}, d{l}) = {real}, reference {want}; stale valid_paths {stale}",
                          {"ops": ops[: i + 1], "nloc": nloc})
                 break
         ctx.case({"ops": [list(o) for o in ops[:10]], "nloc": nloc}, ("h", nloc, repr(ops)) if nontriv else None, bucket)
 
     def explore(self, ctx: Ctx) -> None:
         rng = ctx.rng
+        self._per_key = {}
         lines, expect, meta = [], [], []
         for ops in CORPUS:
             self._run(ctx, ops, 2, lines, expect, meta, "corpus")
@@ -288,6 +303,7 @@ class C21(Property):
             return super().replay(ctx, data)
         ops = [tuple(o) for o in r["ops"]]
         lines, expect, meta = [], [], []
+        self._per_key = {}
         self._run(ctx, ops, r.get("nloc", 3), lines, expect, meta, "replay")
         got = ctx.lean(DRIVER, lines)
         for ln, gl, e in zip(lines, got, expect):
